@@ -90,6 +90,7 @@ def cfg_defs(cfg):
 
 
 def sh(cmd, cwd=None, timeout=None, mem_gb=None, env=None):
+    if env is None and _SCRATCH_TMP[0]: env = dict(os.environ, TMPDIR=_SCRATCH_TMP[0])
     """run a command in its own process group; returns (rc, stdout+stderr, seconds, maxrss_kb, timed_out)"""
     def pre():
         os.setsid()
@@ -111,6 +112,9 @@ def sh(cmd, cwd=None, timeout=None, mem_gb=None, env=None):
     return p.returncode, out.decode('utf-8', 'replace'), time.time() - t0, 0, to
 
 
+_SCRATCH_TMP = [None]      # temp files of compilers and solvers live (and die) with the run's scratch directory
+
+
 class Result:
     def __init__(self, q, twin):
         self.q = q; self.twin = twin
@@ -126,6 +130,7 @@ class Runner:
         self.pid = pid; self.tier = tier; self.seed = seed; self.keep = keep
         root = os.environ.get('VERIF_SCRATCH') or tempfile.gettempdir()
         self.scratch = tempfile.mkdtemp(prefix='verif-%s-' % pid, dir=root)
+        os.makedirs(os.path.join(self.scratch, 'tmp'), exist_ok=True); _SCRATCH_TMP[0] = os.path.join(self.scratch, 'tmp')
         self.objcache = {}
         self.notes = []
         self.t0 = time.time()
@@ -243,7 +248,8 @@ class Runner:
             if q.fsarray: cmd += ['--max-field-sensitivity-array-size', str(q.fsarray)]
             cmd += q.flags
             if twin: cmd += ['--no-standard-checks', '--stop-on-fail']
-            rc, out, secs, _, to = sh(['/usr/bin/time', '-f', 'MAXRSS_KB %M'] + cmd, cwd=wd, timeout=q.timeout, mem_gb=q.mem_gb)
+            rc, out, secs, _, to = sh(['/usr/bin/time', '-f', 'MAXRSS_KB %M'] + cmd, cwd=wd, timeout=q.timeout, mem_gb=q.mem_gb,
+                                       env=dict(os.environ, TMPDIR=wd))      # CNF files for the external solver go to the job directory and die with it
             r.seconds = secs
             m = re.search(r'MAXRSS_KB (\d+)', out)
             if m: r.rss_mb = int(m.group(1)) // 1024
